@@ -1,4 +1,5 @@
 import HexProofs.Numeric.Simple
+import HexProofs.Numeric.TotalLifeMgrFillHA
 import HexProofs.Numeric.TotalInputs
 import HexProofs.Numeric.TotalInputsHex
 import HexProofs.Numeric.TotalMoreAmorph
@@ -1250,5 +1251,148 @@ theorem sma_over_rsi_hexital (M : MgrSpec K) (pA pB : Nat) (hpA : 1 ≤ pA) (hpB
       NoGapsFlt (own nmA) pA (M.spec (init ++ chunks.flatten)) cs ∧
       NoGapsFlt (own nmB) (pA + (pB - 1)) (M.spec (init ++ chunks.flatten)) cs :=
   Hex.Numeric.sma_over_rsi_hexital M pA pB hpA hpB nmA nmB nA nB hkA hnA hkB h1 h2 tfn init chunks hok
+
+/-! ### (d) a lifespan TOGETHER with a re-collapsing / converting manager (HexProofs/Numeric/TotalLifeMgr*.lean) -/
+
+/-- **every shipped class never raises on `{timeframe, candles_lifespan}`** when nothing is popped at construction and
+`treeLook` CLOSED buckets are retained at every popping append (C15's `RetainsBuckets`): the run returns, with the candles
+of the `{timeframe}` run minus the popped buckets -/
+theorem never_raises_lifespan_tf (k : Kind K) (nm : String) (n : Nat) (hc : CoveredTreeX nm k)
+    (tf : Int) (htf : 0 < tf) (hbase : NeverRaises (MgrSpec.tf K tf htf) (mkTop k nm n))
+    (life : Int) (init : List (Candle K)) (chunks : List (List (Candle K)))
+    (hraw : RawTf (init ++ chunks.flatten))
+    (hinit : trimCandles (some life) (resample tf init) = .ok (resample tf init))
+    (hret : RetainsBuckets (treeLook k nm n) tf life init 0 chunks) :
+    ∃ snap d, candlesOf (runIndicator (mkTop k nm n) { tf := some tf, lifespan := some life } init chunks)
+        = .ok (snap.drop d) ∧
+      candlesOf (runIndicator (mkTop k nm n) { tf := some tf } init chunks) = .ok snap :=
+  covered_never_raises_lifespan_tf k nm n hc tf htf hbase life init chunks hraw hinit hret
+
+/-- … on `{timeframe, timeframe_fill, candles_lifespan}` (`RetainsFilled`: closed candles of the gap-filled list) -/
+theorem never_raises_lifespan_fill (k : Kind K) (nm : String) (n : Nat) (hc : CoveredTreeX nm k)
+    (tf : Int) (htf : 0 < tf) (hbase : NeverRaises (MgrSpec.fill K tf htf) (mkTop k nm n))
+    (life : Int) (init : List (Candle K)) (chunks : List (List (Candle K)))
+    (hraw : RawTf (init ++ chunks.flatten))
+    (hinit : trimCandles (some life) (fillSpec tf init) = .ok (fillSpec tf init))
+    (hret : RetainsFilled (treeLook k nm n) tf life init 0 chunks) :
+    ∃ snap d, candlesOf (runIndicator (mkTop k nm n) { tf := some tf, fill := true, lifespan := some life } init chunks)
+        = .ok (snap.drop d) ∧
+      candlesOf (runIndicator (mkTop k nm n) { tf := some tf, fill := true } init chunks) = .ok snap :=
+  covered_never_raises_lifespan_fill k nm n hc tf htf hbase life init chunks hraw hinit hret
+
+/-- … on `{candlestick = HA, candles_lifespan}` (the hypothesis of the plain lifespan manager, on the raw stamps) -/
+theorem never_raises_lifespan_ha (k : Kind K) (nm : String) (n : Nat) (hc : CoveredTreeX nm k)
+    (hbase : NeverRaises (MgrSpec.ha K) (mkTop k nm n))
+    (life : Int) (init : List (Candle K)) (chunks : List (List (Candle K)))
+    (hraw : ∀ c ∈ init ++ chunks.flatten, Plain c ∧ c.tag = false) (hinit : trimCandles (some life) init = .ok init)
+    (hret : RetainsFrom (treeLook k nm n) life init init.length chunks) :
+    ∃ snap d, candlesOf (runIndicator (mkTop k nm n) { ha := true, lifespan := some life } init chunks)
+        = .ok (snap.drop d) ∧
+      candlesOf (runIndicator (mkTop k nm n) { ha := true } init chunks) = .ok snap :=
+  covered_never_raises_lifespan_ha k nm n hc hbase life init chunks hraw hinit hret
+
+/-- … on `{timeframe, HA, candles_lifespan}` (the hypothesis of the unconverted timeframe manager) -/
+theorem never_raises_lifespan_tf_ha (k : Kind K) (nm : String) (n : Nat) (hc : CoveredTreeX nm k)
+    (tf : Int) (htf : 0 < tf) (hbase : NeverRaises (MgrSpec.tfHA K tf htf) (mkTop k nm n))
+    (life : Int) (init : List (Candle K)) (chunks : List (List (Candle K)))
+    (hraw : RawTf (init ++ chunks.flatten) ∧ ∀ c ∈ init ++ chunks.flatten, c.tag = false)
+    (hinit : trimCandles (some life) (resample tf init) = .ok (resample tf init))
+    (hret : RetainsBuckets (treeLook k nm n) tf life init 0 chunks) :
+    ∃ snap d, candlesOf (runIndicator (mkTop k nm n) { tf := some tf, ha := true, lifespan := some life } init chunks)
+        = .ok (snap.drop d) ∧
+      candlesOf (runIndicator (mkTop k nm n) { tf := some tf, ha := true } init chunks) = .ok snap :=
+  covered_never_raises_lifespan_tf_ha k nm n hc tf htf hbase life init chunks hraw hinit hret
+
+/-- … on `{timeframe, timeframe_fill, HA, candles_lifespan}` (the hypothesis of the unconverted fill manager) -/
+theorem never_raises_lifespan_tf_fill_ha (k : Kind K) (nm : String) (n : Nat) (hc : CoveredTreeX nm k)
+    (tf : Int) (htf : 0 < tf) (hbase : NeverRaises (MgrSpec.fillHA K tf htf) (mkTop k nm n))
+    (life : Int) (init : List (Candle K)) (chunks : List (List (Candle K)))
+    (hraw : RawTf (init ++ chunks.flatten) ∧ ∀ c ∈ init ++ chunks.flatten, c.tag = false)
+    (hinit : trimCandles (some life) (fillSpec tf init) = .ok (fillSpec tf init))
+    (hret : RetainsFilled (treeLook k nm n) tf life init 0 chunks) :
+    ∃ snap d, candlesOf (runIndicator (mkTop k nm n)
+        { tf := some tf, fill := true, ha := true, lifespan := some life } init chunks) = .ok (snap.drop d) ∧
+      candlesOf (runIndicator (mkTop k nm n) { tf := some tf, fill := true, ha := true } init chunks) = .ok snap :=
+  covered_never_raises_lifespan_tf_fill_ha k nm n hc tf htf hbase life init chunks hraw hinit hret
+
+/-- the generic form: ANY manager with the twin interface `TwinMgr` (`TwinMgr.tf / .fill / .ha / .tfHA / .fillHA`) -/
+theorem never_raises_lifespan_mgr {F : Type} [PyF F] (M : TwinMgr F) (k : Kind F) (nm : String) (n : Nat)
+    (hc : CoveredTreeX nm k)
+    (hbase : ∀ (init : List (Candle F)) (chunks : List (List (Candle F))), M.Ok (init ++ chunks.flatten) →
+      ∃ snap, candlesOf (runIndicator (mkTop k nm n) M.cfg init chunks) = .ok snap)
+    (life : Int) (init : List (Candle F)) (chunks : List (List (Candle F)))
+    (hok : M.Ok (init ++ chunks.flatten))
+    (hinit : trimCandles (some life) (M.spec init) = .ok (M.spec init))
+    (hret : RetainsClosed M.spec M.closed (treeLook k nm n) life init 0 chunks) :
+    ∃ snap d, candlesOf (runIndicator (mkTop k nm n) (M.cfg.withLife life) init chunks) = .ok (snap.drop d) ∧
+      candlesOf (runIndicator (mkTop k nm n) M.cfg init chunks) = .ok snap :=
+  covered_never_raises_lifespan_mgr M k nm n hc hbase life init chunks hok hinit hret
+
+/-- the pointwise form (every float carrier, the executed `Float` included): on THIS stream and schedule, if the
+lifespan-free twin returns, so does the lifespan run – with the twin's candles minus the popped ones -/
+theorem lifespan_follows_twin_mgr {F : Type} [PyF F] (M : TwinMgr F) (k : Kind F) (nm : String) (n : Nat)
+    (hc : CoveredTreeX nm k) (life : Int) (init : List (Candle F)) (chunks : List (List (Candle F)))
+    (hok : M.Ok (init ++ chunks.flatten))
+    (hinit : trimCandles (some life) (M.spec init) = .ok (M.spec init))
+    (hret : RetainsClosed M.spec M.closed (treeLook k nm n) life init 0 chunks) (snap : List (Candle F))
+    (hsnap : candlesOf (runIndicator (mkTop k nm n) M.cfg init chunks) = .ok snap) :
+    ∃ d, candlesOf (runIndicator (mkTop k nm n) (M.cfg.withLife life) init chunks) = .ok (snap.drop d) :=
+  covered_lifespan_follows_twin_mgr M k nm n hc life init chunks hok hinit hret snap hsnap
+
+/-- e.g. MACD, BBANDS, HMA, ATR, SMA on ALL FIVE managers at once (`hM`: `TwinMgr.matches_tf tf htf`, `…_fill`, `…_ha`,
+`…_tfHA`, `…_fillHA`; read the result with `LifeTotalMgr.tf / .fill / .ha / .tfHA / .fillHA`); likewise `rsi_`, `stdev_`, `kc_`, `stdevthres_`,
+`supertrend_`, `vwap_`, `stoch_`, `tsi_`, `adx_`, `ema_`, `rma_`, `wma_`, `vwma_`, `hla_`, `tr_`, `obv_`, `hl_`,
+`donchian_`, `aroon_lifeTotalMgr`, and `counter_lifeTotalMgr` on every float carrier -/
+theorem macd_never_raises_lifespan_mgr {M : TwinMgr K} {MS : MgrSpec K} (hM : M.Matches MS) (nm : String)
+    (n pf ps pg : Nat) (input : String) (fld : Candle K → Num K)
+    (hf : 2 ≤ pf) (hfs : pf ≤ ps) (hg : 1 ≤ pg) (hn : MacdNames nm) (hin : AttrInput input)
+    (hattr : ∀ c : Candle K, c.attr input = some (.num (fld c))) :
+    LifeTotalMgr M (mkTop (.macd (pf : Int) (ps : Int) (pg : Int) input : Kind K) nm n)
+      (treeLook (.macd (pf : Int) (ps : Int) (pg : Int) input : Kind K) nm n) :=
+  macd_lifeTotalMgr hM nm n pf ps pg input fld hf hfs hg hn hin hattr
+theorem bbands_never_raises_lifespan_mgr {M : TwinMgr K} {MS : MgrSpec K} (hM : M.Matches MS) (p : Nat) (hp : 2 ≤ p)
+    (nm input : String) (fld : Candle K → Num K) (n : Nat) (hk : IsKey nm) (hn : BbNames nm) (hin : AttrInput input)
+    (hattr : ∀ c : Candle K, c.attr input = some (.num (fld c))) :
+    LifeTotalMgr M (mkTop (.bbands (p : Int) input : Kind K) nm n) (treeLook (.bbands (p : Int) input : Kind K) nm n) :=
+  bbands_lifeTotalMgr hM p hp nm input fld n hk hn hin hattr
+theorem hma_never_raises_lifespan_mgr {M : TwinMgr K} {MS : MgrSpec K} (hM : M.Matches MS) (p : Nat) (hp : 2 ≤ p)
+    (nm input : String) (fld : Candle K → Num K) (n : Nat) (hn : HmaNames nm) (hin : AttrInput input)
+    (hattr : ∀ c : Candle K, c.attr input = some (.num (fld c))) :
+    LifeTotalMgr M (mkTop (.hma (p : Int) input : Kind K) nm n) (treeLook (.hma (p : Int) input : Kind K) nm n) :=
+  hma_lifeTotalMgr hM p hp nm input fld n hn hin hattr
+theorem atr_never_raises_lifespan_mgr {M : TwinMgr K} {MS : MgrSpec K} (hM : M.Matches MS) (p : Nat) (hp : 1 ≤ p)
+    (nm : String) (n : Nat) (hk : IsKey nm) (hn : AtrNames nm) :
+    LifeTotalMgr M (mkTop (.atr (p : Int) : Kind K) nm n) (treeLook (.atr (p : Int) : Kind K) nm n) :=
+  atr_lifeTotalMgr hM p hp nm n hk hn
+theorem sma_never_raises_lifespan_mgr {M : TwinMgr K} {MS : MgrSpec K} (hM : M.Matches MS) (p : Nat) (hp : 2 ≤ p)
+    (nm input : String) (fld : Candle K → Num K) (n : Nat) (hk : IsKey nm) (hin : AttrInput input)
+    (hattr : ∀ c : Candle K, c.attr input = some (.num (fld c))) :
+    LifeTotalMgr M (mkTop (.sma p input : Kind K) nm n) (treeLook (.sma p input : Kind K) nm n) :=
+  sma_lifeTotalMgr hM p hp nm input fld n hk hin hattr
+
+/-- e.g. ATR on `{timeframe, HA, candles_lifespan}`, spelled out -/
+example (tf : Int) (htf : 0 < tf) (p : Nat) (hp : 1 ≤ p) (nm : String) (n : Nat) (hk : IsKey nm) (hn : AtrNames nm)
+    (life : Int) (init : List (Candle K)) (chunks : List (List (Candle K)))
+    (hraw : RawTfHA (init ++ chunks.flatten))
+    (hinit : trimCandles (some life) (resample tf init) = .ok (resample tf init))
+    (hret : RetainsBuckets (treeLook (.atr (p : Int) : Kind K) nm n) tf life init 0 chunks) :
+    ∃ snap d, candlesOf (runIndicator (mkTop (.atr (p : Int) : Kind K) nm n)
+        { tf := some tf, ha := true, lifespan := some life } init chunks) = .ok (snap.drop d) ∧
+      candlesOf (runIndicator (mkTop (.atr (p : Int) : Kind K) nm n) { tf := some tf, ha := true } init chunks)
+        = .ok snap :=
+  (atr_never_raises_lifespan_mgr (TwinMgr.matches_tfHA tf htf) p hp nm n hk hn).tfHA life init chunks hraw hinit hret
+
+/-- **… and WITHOUT the retention hypothesis the statement is FALSE on a timeframe manager as well** (open known
+finding): SMA(4) on 120 s buckets with a 360 s lifespan, ONE closed bucket retained by the append: `IndexError`, while the
+`{timeframe}` twin returns (toy carrier; replayed on the library) -/
+theorem lifespan_short_retention_raises_tf :
+    candlesOf (runIndicator (mkTop (.sma 4 "close") "SMA_4" 4) { tf := some 120, lifespan := some 360 } lifeTfInit
+      lifeTfChunks) = .error .indexError ∧
+    (candlesOf (runIndicator (mkTop (.sma 4 "close") "SMA_4" 4) { tf := some 120 } lifeTfInit
+      lifeTfChunks)).toOption.isSome ∧
+    RawTf (lifeTfInit ++ lifeTfChunks.flatten) ∧
+    trimCandles (some 360) (resample 120 lifeTfInit) = .ok (resample 120 lifeTfInit) ∧
+    RetainsBuckets 1 120 360 lifeTfInit 0 lifeTfChunks :=
+  ⟨sma_raises_after_trim_tf.1, sma_raises_after_trim_tf.2, lifeTf_raw, lifeTf_init, lifeTf_retains1⟩
 
 end Hex.C09
